@@ -75,8 +75,8 @@ def _eqpt_variants():
         dict(margin=2, pens={}, shift=0),
         dict(margin=1.37, pens={('Voyager', 'mode 1'): pen_d, ('Voyager', 'mode 3'): pen_c,
                                 ('vendorA_trx-type1', 'mode 1'): pen_d}, shift=0),
-        dict(margin=0, pens={('Voyager', 'mode 1'): pen_b, ('vendorA_trx-type1', 'mode 1'): pen_a}, shift=3),
-        dict(margin=2.5, pens={('Voyager', 'mode 4'): pen_a, ('Voyager', 'mode 2'): pen_a}, shift=6),
+        dict(margin=0, pens={('Voyager', 'mode 1'): pen_b, ('vendorA_trx-type1', 'mode 1'): pen_a}, shift=3, tx=1.5),
+        dict(margin=2.5, pens={('Voyager', 'mode 4'): pen_a, ('Voyager', 'mode 2'): pen_a}, shift=6, tx=None),
         dict(margin=0.5, pens={('Voyager', 'mode 1'): pen_c, ('Voyager', 'mode 3'): pen_b,
                                ('vendorA_trx-type1', 'mode 2'): pen_c}, shift=9),
     ]
@@ -84,6 +84,12 @@ def _eqpt_variants():
     for sp in specs:
         e = copy.deepcopy(base)
         e['SI'][0]['sys_margins'] = sp['margin']
+        # transceiver output power: as shipped (= span input power), a different value, or not defined
+        if 'tx' in sp:
+            if sp['tx'] is None:
+                e['SI'][0].pop('tx_power_dbm', None)
+            else:
+                e['SI'][0]['tx_power_dbm'] = sp['tx']
         for t in e['Transceiver']:
             for m in t['mode']:
                 p = sp['pens'].get((t['type_variety'], m['format']))
@@ -174,13 +180,15 @@ def build(topo, k):
 
 
 # ------------------------------------------------------------------ request batches
-def mk_request(rid, s, t, ttype, mode, spacing, nch, power, bw, slots, bidir, inc=None):
+def mk_request(rid, s, t, ttype, mode, spacing, nch, power, bw, slots, bidir, inc=None, tx_power=None):
     r = {'request-id': str(rid), 'source': f'trx {s}', 'destination': f'trx {t}', 'src-tp-id': f'trx {s}',
          'dst-tp-id': f'trx {t}', 'bidirectional': bidir,
          'path-constraints': {'te-bandwidth': {'technology': 'flexi-grid', 'trx_type': ttype, 'trx_mode': mode,
                                                'effective-freq-slot': slots, 'spacing': spacing,
                                                'max-nb-of-channel': nch, 'output-power': power,
                                                'path_bandwidth': bw}}}
+    if tx_power is not None:
+        r['path-constraints']['te-bandwidth']['tx_power'] = tx_power
     if inc:
         r['explicit-route-objects'] = {'route-object-include-exclude': [
             {'explicit-route-usage': 'route-include-ero', 'index': i,
@@ -279,7 +287,7 @@ def gen_batch(rng, topo, k):
             r['request-id'] = str(i)
             te = r['path-constraints']['te-bandwidth']
             if rng.random() < 0.5:
-                te['path_bandwidth'] = rng.choice([100e9, 200e9, 150e9, 400e9])
+                te['path_bandwidth'] = rng.choice([100e9, 200e9, 150e9, 400e9, 50.3e9, 100.4e9, 2.5e9])
             dim = rng.choice(NEAR_TWIN_DIMS + ['twin'] * 3 + SAME_AFTER_HARMONISATION)
             near_twin(rng, dim, r0, r, names, modes)
             reqs.append(r)
@@ -297,7 +305,9 @@ def gen_batch(rng, topo, k):
         nch = rng.choice([None] + [3, 5, 8, 8, 12, 16, 20] * 2)
         power = rng.choice([None, None, 1e-3, 2e-3, 0.5e-3, 0.0005011872336272725, 1.3e-3])
         nb = rng.choice([1, 1, 1, 2, 2, 3, 5])
-        bw = rng.choice([br * nb, br * nb, br * nb - 50e9 if br * nb > 50e9 else br * nb, 37.5e9 * nb])
+        # whole and fractional numbers of Gbit/s, below / at / above a multiple of the bit rate
+        bw = rng.choice([br * nb, br * nb, br * nb - 50e9 if br * nb > 50e9 else br * nb, 37.5e9 * nb,
+                         br * nb + 0.4e9, 50.3e9 * nb, 2.5e9, br * nb - 0.25e9])
         pcm = math.ceil(spacing / 12.5e9)
         need = math.ceil(bw / br)
         x = rng.random()
@@ -329,7 +339,8 @@ def gen_batch(rng, topo, k):
             other = [u for u in names if u not in (s, t)]
             if other:
                 inc = [(f'roadm {rng.choice(other)}', rng.choice(['STRICT', 'STRICT', 'LOOSE']))]
-        reqs.append(mk_request(i, s, t, ttype, mode, spacing, nch, power, bw, slots, rng.random() < 0.35, inc))
+        tx_power = rng.choice([None, None, None, 1.1e-3, 0.7e-3, 2e-3])
+        reqs.append(mk_request(i, s, t, ttype, mode, spacing, nch, power, bw, slots, rng.random() < 0.35, inc, tx_power))
     sync = []
     if len(reqs) >= 2 and rng.random() < 0.12:
         a, b = rng.sample(range(len(reqs)), 2)
@@ -452,7 +463,7 @@ def drive(case):
              'path': [[el.uid, isinstance(el, Transceiver)] for el in pth],
              'fwd': figures(pth[-1]) if pth and getattr(pth[-1], 'snr', None) is not None else None,
              'rev': figures(rpth[-1]) if rpth and getattr(rpth[-1], 'snr', None) is not None else None,
-             'power': rq.power, 'bw': rq.path_bandwidth,
+             'power': rq.power, 'bw': rq.path_bandwidth, 'tx_power': getattr(rq, 'tx_power', None),
              'source': rq.source, 'destination': rq.destination,
              'rev_ends': [rpth[0].uid, rpth[-1].uid] if rpth else None,
              'block_at_assign': br_as, 'N_final': copy.deepcopy(getattr(rq, 'N', None)),
@@ -1033,6 +1044,56 @@ def pdbm_of(resp):
     return 0.0
 
 
+def round2_exact(x):
+    """round-half-even of an exact value to two decimals; None within 1e-9 of a tie"""
+    if near_tie(x):
+        return None
+    return Fraction(round(x * 100), 100)
+
+
+def csv_bandwidth_oracle(resp, row, k):
+    """the bandwidth columns of a served row, from the response document itself: path_bandwidth = the response's
+    path_bandwidth in Gbit/s (2 decimals), nb of tsp pairs = ceil(that / bit rate of the mode in Gbit/s), total cost =
+    pairs x cost of the mode"""
+    fails = []
+    pp = resp['path-properties']
+    bw = metric_value(pp['path-metric'], 'path_bandwidth')
+    want = round2_exact(Fraction(bw) / 10 ** 9) if isinstance(bw, (int, float)) else None
+    if want is None:
+        return fails
+    try:
+        got = Fraction(Decimal(row['path_bandwidth']))
+    except Exception:
+        return [('csv_bandwidth', f'path_bandwidth column {row["path_bandwidth"]!r} for {bw!r} bit/s')]
+    if abs(got - want) > Fraction(1, 10 ** 9):
+        fails.append(('csv_bandwidth', f'the response states {bw!r} bit/s, the CSV says {row["path_bandwidth"]} Gbit/s '
+                                       f'(expected {float(want)})'))
+    try:
+        tsp = next(o['path-route-object']['transponder'] for o in pp['path-route-objects']
+                   if 'transponder' in o['path-route-object'])
+        md = next(m for t in eqpt_variants()[k]['Transceiver'] if t['type_variety'] == tsp['transponder-type']
+                  for m in t['mode'] if m['format'] == tsp['transponder-mode'])
+    except StopIteration:
+        return fails
+    br = round2_exact(Fraction(md['bit_rate']) / 10 ** 9)
+    if br is None or br == 0:
+        return fails
+    q = want / br
+    if q.denominator != 1 and abs(q - round(q)) < Fraction(1, 10 ** 9):
+        return fails
+    nb = math.ceil(q)
+    if row['nb of tsp pairs'] != str(nb):
+        fails.append(('csv_tsp_count', f'{float(want)} Gbit/s at {float(br)} Gbit/s per transponder pair needs {nb} pairs, '
+                                       f'the CSV says {row["nb of tsp pairs"]}'))
+    else:
+        try:
+            if not close(float(row['total cost']), nb * md['cost']):
+                fails.append(('csv_total_cost', f'{nb} pairs x cost {md["cost"]}: the CSV says {row["total cost"]}'))
+        except ValueError:
+            fails.append(('csv_total_cost', f'total cost column {row["total cost"]!r}'))
+    return fails
+
+
 # ------------------------------------------------------------------ batch-level oracle (Python, on observations)
 def batch_oracle(case, drv):
     fails = []
@@ -1129,6 +1190,8 @@ def batch_oracle(case, drv):
             if row['response-id'] != o['id']:
                 fails.append(('csv_id', f'{o["id"]}: csv row id {row["response-id"]}'))
             if o['block'] is None:
+                for key, desc in csv_bandwidth_oracle(resp, row, case['eq']):
+                    fails.append((key, f'{o["id"]}: {desc}'))
                 if row['Pass?'] != 'True' and 'Pass?' not in csv_skips(resp, case['eq']):
                     fails.append(('csv_pass', f'{o["id"]} is served but the CSV says Pass?={row["Pass?"]}'))
                 if row['spectrum (N,M)'] != f'{o["N"]}, {o["M"]}':
@@ -1235,6 +1298,10 @@ def run(ctx):
             ctx.count('outcome_' + oc)
             if o['bidir']:
                 ctx.count('bidirectional')
+            if o.get('tx_power') is not None and o['tx_power'] != o['power']:
+                ctx.count('tx_power_differs_from_power')
+            if (Fraction(o['bw']) / 10 ** 9).denominator != 1:
+                ctx.count('bandwidth_not_whole_gbit')
             if ' | ' in o['id']:
                 ctx.count('aggregated')
             if o['block'] is None and len(o['N']) > 1:
